@@ -36,14 +36,38 @@ class FakeWriter:
         self.paused = False          # back pressure: drain() waits until resume()
         self.waiters: list = []
 
+    @property
+    def transport(self):
+        """The asyncio transport beneath the writer: everything handed over has left (empty send buffer)."""
+        writer = self
+
+        class _T:
+            def get_write_buffer_size(self):
+                return 0
+
+            def is_closing(self):
+                return writer.closed
+
+            def get_extra_info(self, *_a, **_k):
+                return None
+
+        return _T()
+
     def write(self, data: bytes) -> None:
         if self.fault == "write":
             raise BrokenPipeError("injected")
+        if self.fault == "write_oserror":
+            raise OSError(5, "injected I/O error")
         self.data += data
 
     async def drain(self) -> None:
+        # the ways a lost connection surfaces in drain(): reset, timed out (ETIMEDOUT is the builtin TimeoutError), plain OSError
         if self.fault == "drain":
             raise ConnectionResetError("injected")
+        if self.fault == "drain_timeout":
+            raise TimeoutError(110, "injected: connection timed out")
+        if self.fault == "drain_oserror":
+            raise OSError(113, "injected: no route to host")
         if self.paused:
             fut = asyncio.get_running_loop().create_future()
             self.waiters.append(fut)
@@ -276,7 +300,7 @@ def concretise(cover: dict, k: int) -> list:
                 cmds.append(["write", "unconnected"])
             else:
                 text = "".join(chr(c) for c in h[1])
-                fault = "none" if h[2] else ("write" if k % 2 else "drain")
+                fault = "none" if h[2] else ["write", "drain", "drain_timeout", "drain_oserror", "write_oserror"][k % 5]
                 cmds.append(["write", text, fault])
         elif op == "disconnect":
             cmds.append(["disconnect", "none" if h[1] else ("close" if k % 2 else "wait")])
@@ -307,7 +331,8 @@ def model_covers(workdir: str, cfgname: str, streams: str | None) -> tuple[list,
 
 def random_jobs(rnd: random.Random, n: int) -> list:
     jobs = []
-    alphabet = [10, 10, 97, 59, 13, 255, 195, 169, 0xE2, 0x82, 0xAC, 0xF0, 0x9F, 0x98, 0x80, 48, 49, 32, 0xC0, 0xED, 0xA0, 0xEF, 0xBB, 0xBF]
+    alphabet = [10, 10, 97, 59, 13, 255, 195, 169, 0xE2, 0x82, 0xAC, 0xF0, 0x9F, 0x98, 0x80, 48, 49, 32, 0xC0, 0xED, 0xA0, 0xEF, 0xBB, 0xBF,
+                123, 125, 37, 123, 48, 125]     # braces and percent signs: text that ends up inside error messages
     for k in range(n):
         limit = rnd.choice([8, 16, 64, 2 ** 16])
         stream = [rnd.choice(alphabet) for _ in range(rnd.randint(0, 40))]
@@ -324,7 +349,7 @@ def random_jobs(rnd: random.Random, n: int) -> list:
             elif r < 0.8:
                 cmds.append(["read"])
             elif r < 0.85:
-                cmds.append(["write", rnd.choice(["1;255;3;0;2;\n", "é;\n", "\U0001f600\n", ""]), rnd.choice(["none", "none", "write", "drain"])])
+                cmds.append(["write", rnd.choice(["1;255;3;0;2;\n", "é;\n", "\U0001f600\n", ""]), rnd.choice(["none", "none", "write", "drain", "drain_timeout", "drain_oserror", "write_oserror"])])
             elif r < 0.9 and pos >= len(stream):
                 cmds.append(["eof"])
             elif r < 0.93:
